@@ -15,6 +15,7 @@ import (
 	"github.com/herohde/morlock/pkg/search/searchctl"
 	"github.com/seekerror/stdlib/pkg/lang"
 	"verif/bridge"
+	"verif/corpus"
 	"verif/harness"
 )
 
@@ -158,7 +159,7 @@ func runC18Engine(word []string) string {
 
 func checkC18(c *harness.Check) {
 	mustAnchors(c)
-	c.Rule = "sequential half of C18 (the concurrent half runs under the interleaving explorer): for every (root of the search corpus, depth, configuration of the 7 search configurations): (repeat) the same search twice on one Search value and once on a second one; (after) the search after every other root of the corpus / every pair was searched first on the same Search value; (seeds) Zobrist seeds 0,1,2,77,20260917 incl. roots whose history contains repetitions; (noise) evaluation noise twice from the same seed - (score, PV, node count) must be identical. Engine operation words of length <= 4 over {reset F, move i, takeback, analyze d, halt}: Position() and the full Board() snapshot are unchanged by analyze/halt. distinct_nontrivial = distinct cases with depth >= 1"
+	c.Rule = "sequential half of C18 (the concurrent half runs under the interleaving explorer): for every (root of the search corpus, depth, configuration of the 7 search configurations): (repeat) the same search twice on one Search value and once on a second one; (after) the search after every other root of the corpus / every pair was searched first on the same Search value; (seeds) Zobrist seeds 0,1,2,77,20260917 incl. roots whose history contains repetitions; (twins) every root that has a history right after / before its history-less twin (same position set up directly) on the same Search value; (noise) evaluation noise twice from the same seed - (score, PV, node count) must be identical. Engine operation words of length <= 4 over {reset F, move i, takeback, analyze d, halt}: Position() and the full Board() snapshot are unchanged by analyze/halt. distinct_nontrivial = distinct cases with depth >= 1"
 	var cases []c18case
 	roots := searchRoots
 	for _, cfg := range searchCfgs {
@@ -183,6 +184,21 @@ func checkC18(c *harness.Check) {
 				}
 				cases = append(cases, c18case{Kind: "after", Cfg: cfg.Name, Root: r, Depth: d, Before: []searchRoot{o}})
 				cases = append(cases, c18case{Kind: "after", Cfg: cfg.Name, Root: r, Depth: d, Before: []searchRoot{o, roots[(oi+7)%len(roots)]}})
+			}
+		}
+	}
+	// same position, different history: every root that has a history, searched right after (and
+	// right before) its history-less twin on the same Search value
+	for _, cfg := range searchCfgs {
+		for _, r := range append(append([]searchRoot{}, roots...), historyRoots...) {
+			if len(r.Moves) == 0 {
+				continue
+			}
+			_, g := newSearchBoards(r, 0)
+			twin := searchRoot{FEN: g.FEN(), Tags: r.Tags}
+			for d := 1; d <= 2; d++ {
+				cases = append(cases, c18case{Kind: "after", Cfg: cfg.Name, Root: r, Depth: d, Before: []searchRoot{twin}})
+				cases = append(cases, c18case{Kind: "after", Cfg: cfg.Name, Root: twin, Depth: d, Before: []searchRoot{r}})
 			}
 		}
 	}
@@ -295,4 +311,13 @@ func concurrentHalf(c *harness.Check) {
 		c.ViolationEngine("mcy", f.Violation, f.Msg, "mc/schedule", raw.Confirmed[i])
 	}
 	c.Sample(map[string]any{"interleaving_scenario": "two engines searching K v K side by side, scheduling point at every function entry", "oracle": "each engine returns what it returns alone"})
+}
+
+// historyRoots reach a position by play that could also be set up directly: what the heuristics
+// read from the history (moved pieces, castled flags, last moves) differs, the position does not.
+var historyRoots = []searchRoot{
+	{corpus.Initial, []string{"g1f3", "a7a6", "f3g1"}, "history"},
+	{corpus.Initial, []string{"e2e4", "e7e5", "g1f3", "b8c6", "f1c4", "f8c5", "e1g1"}, "history castled"},
+	{"r3k2r/8/8/8/8/8/8/R3K2R w KQkq - 0 1", []string{"e1g1", "e8c8"}, "history castled"},
+	{"4k3/8/8/3q4/4P3/8/3R4/4K3 b - - 0 1", []string{"e8e7", "e1f1", "e7e8", "f1e1"}, "history tactical"},
 }
